@@ -1,6 +1,7 @@
 package main
 
 import (
+	"os"
 	"fmt"
 	"go/types"
 	"strings"
@@ -301,7 +302,54 @@ func (vc *VC) mapNew(st *State, t types.Type) Term {
 func (vc *VC) cardFacts(st *State, mi mapHeaps, ref string) string {
 	c := vc.mapCard(st, mi, ref)
 	d := vc.mapDom(st, mi, ref)
-	return fmt.Sprintf("(and (>= %s 0) (<= %s 9223372036854775807) (= (= %s 0) (forall ((k!c %s)) (not (select %s k!c)))))", c, c, c, mi.ks, d)
+	// "the domain is empty", with stores peeled off so that the quantifier has a plain select pattern
+	base := d
+	var exceptions []string
+	nonEmpty := false
+	for os.Getenv("GOVC_NO_PEEL") == "" && strings.HasPrefix(base, "(store ") {
+		args := splitSExprArgs(base[len("(store ") : len(base)-1])
+		if len(args) != 3 || (args[2] != "true" && args[2] != "false") {
+			break
+		}
+		if args[2] == "true" {
+			// a key stored as present: decisive only if no later (outer) store could have removed it
+			if len(exceptions) == 0 {
+				nonEmpty = true
+			} else {
+				shadowed := false
+				for _, e := range exceptions {
+					if e == args[1] {
+						shadowed = true
+					}
+				}
+				if !shadowed {
+					// cannot tell syntactically: keep the general form
+					return fmt.Sprintf("(and (>= %s 0) (<= %s 9223372036854775807) (= (= %s 0) (forall ((k!c %s)) (not (select %s k!c)))))", c, c, c, mi.ks, d)
+				}
+			}
+		}
+		exceptions = append(exceptions, args[1])
+		base = args[0]
+	}
+	empty := "false"
+	if !nonEmpty {
+		var ors []string
+		for _, e := range exceptions {
+			ors = append(ors, eq("k!c", e))
+		}
+		ors = append(ors, not(sel(base, "k!c")))
+		body := ors[0]
+		if len(ors) > 1 {
+			body = "(or " + strings.Join(ors, " ") + ")"
+		}
+		if strings.Contains(base, "(ite ") || len(exceptions) == 0 {
+			// (no explicit pattern: 'ite' is not allowed in patterns, and the plain form needs none)
+			empty = fmt.Sprintf("(forall ((k!c %s)) %s)", mi.ks, body)
+		} else {
+			empty = fmt.Sprintf("(forall ((k!c %s)) (! %s :pattern ((select %s k!c))))", mi.ks, body, base)
+		}
+	}
+	return fmt.Sprintf("(and (>= %s 0) (<= %s 9223372036854775807) (= (= %s 0) %s))", c, c, c, empty)
 }
 
 // ---- channels (sequential model: buffer content as a slice value)
